@@ -1,5 +1,5 @@
-\* exhaustive, typed mode: assembly 1, blocks 2-3, components 4-5, pool 6-8
-CONSTANTS N = 8  NOrig = 5  NLoc = 1  MaxLevel = 3  Typed = TRUE  MaxSet = 2  NBlk = 2  BlkGrid = FALSE
+\* emission of every explored edge and state, typed mode: assembly 1, blocks 2-3, components 4-5, pool 6-8, depth 3
+CONSTANTS N = 8  NOrig = 5  NLoc = 1  MaxLevel = 3  Typed = TRUE  MaxSet = 2  NBlk = 2  BlkGrid = FALSE  NGrp = 0  Rx = FALSE  NAsm = 0  Deviant = TRUE  WithOwned = FALSE
 ACTION_CONSTRAINT Emit
 INVARIANT EmitState
 INIT Init
@@ -7,7 +7,8 @@ NEXT Next
 CONSTRAINT Bound
 VIEW View
 INVARIANT TypeOK
-INVARIANT OneParentListedOnce
+INVARIANT BrokenIsDead
+INVARIANT OneParentListedOnceD
 INVARIANT NoDuplicates
 INVARIANT Acyclic
 INVARIANT DetachedIsDetached
